@@ -1,6 +1,7 @@
 #!/usr/bin/env python3
 """C04 / C05 / C06: real `monorail run` scenarios judged by the Lean oracle (`execOracle`) and
 compared with the Lean executor machine (`runExec`) fed with the observed completions."""
+import os
 import sys
 import time
 from concurrent.futures import ThreadPoolExecutor
@@ -127,6 +128,56 @@ def dup_case(seed, model, rep):
         repo.done()
 
 
+def unstartable_case(seed, model, rep):
+    """a command file that has its x bit but that the kernel refuses to execute (a script saved with
+    CRLF line endings: `#!/bin/sh\r` names no interpreter). Whatever the run makes of it - a fatal
+    error, or an entry in the result document - it is not a success: no executable of a later group
+    or a later command is started, and a document that carries an `error` entry says failed=true
+    and goes with exit status 1."""
+    rng = scen.Rng(seed)
+    targets = [{"path": "base"}, {"path": "side"}, {"path": "mid", "uses": ["base"]}, {"path": "top", "uses": ["mid"]}]
+    depth = {"base": 0, "side": 0, "mid": 1, "top": 2}
+    cmds = ["c1", "c2"]
+    victim = rng.pick([("c1", "base"), ("c1", "mid"), ("c1", "mid"), ("c2", "base"), ("c2", "mid")])
+    repo = scen.Repo(targets, git=False)
+    case = {"scenario": {"seed": seed, "mode": "unstartable", "victim": list(victim)}}
+    try:
+        for t in targets:
+            for c in cmds:
+                repo.install(t["path"], c)
+        exe = os.path.join(repo.cmd_dir(victim[1]), victim[0])
+        os.remove(exe)
+        with open(exe, "wb") as f:
+            f.write(b"#!/bin/sh\r\nexit 0\r\n")
+        os.chmod(exe, 0o755)
+        repo.set_plan({"*": {"sleep_ms": rng.pick([0, 20, 60])}})
+        rc, j, out, err = repo.mono("run", "-c", "c1", "c2", timeout=120)
+        scen.reap_helpers(repo)
+        rep.evaluations += 1
+        rep.count("unstartable_cases")
+        rep.count("unstartable_fatal" if j is None else "unstartable_reported")
+        # later command, or same command and a later link of the chain base <- mid <- top (which group
+        # the unrelated target `side` shares is the layering's business)
+        def after(t):
+            ci, vi = cmds.index(t["command"]), cmds.index(victim[0])
+            tg = t["target"].rstrip("/")
+            return ci > vi or (ci == vi and tg != "side" and depth[tg] > depth[victim[1]])
+        later = sorted((t["command"], t["target"]) for t in repo.traces() if after(t))
+        if rc == 0 or later:
+            rep.oracle_fail({"kind": "a run continued past a task that could not be started", "scenario": case["scenario"], "exit": rc,
+                             "failed_flag": (j or {}).get("failed"), "started_after_it": later[:6], "stderr": err[-300:]})
+            return
+        if j is not None:
+            sts = [e["status"] for r in j["results"] for g in r["target_groups"] for e in g.values()]
+            if ("error" in sts) != bool(j["failed"]) or rc != 1:
+                rep.oracle_fail({"kind": "failed flag / exit status disagree with the entries", "scenario": case["scenario"], "exit": rc,
+                                 "failed_flag": j["failed"], "statuses": sorted(set(sts))})
+                return
+        rep.nontrivial_case(case["scenario"])
+    finally:
+        repo.done()
+
+
 def main():
     args = scen.parse_args(sys.argv)
     prop = args["prop"]
@@ -152,6 +203,11 @@ def main():
         if args["budget"] > 0:
             dup_seeds += [rng.next() for _ in range((60 if args["tier"] == "thorough" else 10) * args["budget"])]
         scen.run_cases(lambda s: dup_case(s, model, rep), dup_seeds, rep, 6)
+    if prop == "C06":
+        us = [sc["seed"] for sc in (c.get("scenario", c) for c in scen.load_corpus(args["corpus"], prop)) if sc.get("mode") == "unstartable"]
+        if args["budget"] > 0:
+            us += [rng.next() for _ in range((40 if args["tier"] == "thorough" else 8) * args["budget"])]
+        scen.run_cases(lambda s: unstartable_case(s, model, rep), us, rep, 6)
     scen.finish(args, rep, t0, model)
 
 
